@@ -1061,6 +1061,29 @@ hwloc__xml_import_object(hwloc_topology_t topology,
      */
   }
 
+  if (!ignored && childrengotignored && obj->memory_first_child) {
+    /* memory children of ignored normal children were appended to our own memory children,
+     * make sure the list is ordered by nodeset as the core expects.
+     */
+    hwloc_obj_t *prev, child, children = obj->memory_first_child;
+    obj->memory_first_child = NULL;
+    while (children) {
+      hwloc_bitmap_t childset;
+      /* dequeue child */
+      child = children;
+      children = child->next_sibling;
+      childset = child->complete_nodeset ? child->complete_nodeset : child->nodeset;
+      /* find where to enqueue it, after those that are not higher */
+      prev = &obj->memory_first_child;
+      while (*prev
+	     && hwloc_bitmap_compare_first(childset, (*prev)->complete_nodeset ? (*prev)->complete_nodeset : (*prev)->nodeset) >= 0)
+	prev = &((*prev)->next_sibling);
+      /* enqueue */
+      child->next_sibling = *prev;
+      *prev = child;
+    }
+  }
+
   return state->global->close_tag(state);
 
  error_with_object:
